@@ -463,44 +463,76 @@ def check_naive_utc(ctx, rule):
     # ------------------------------------------------------------------ R5.5 naive means UTC
     ctx.rule(rule, "every value returned by datetime.__new__ has passed the `tzinfo is None -> replace(tzinfo=UTC)` normalisation "
                      "and is not re-assigned afterwards")
+    from .. import logic as _lgc
+
     dn = ctx.anchor_func("flow.record.fieldtypes.datetime.__new__")
     dcfg = CFG(dn)
     rets = [n for n in dcfg.stmt_nodes() if isinstance(n.ast, ast.Return)]
     ctx.floor(rule, "returns of datetime.__new__", len(rets), 1)
-    norm_if = None
-    for st in walk_no_nested(dn):
-        if isinstance(st, ast.If) and isinstance(st.test, ast.Compare) and norm(st.test).endswith(".tzinfo is None") and len(st.body) == 1 \
-                and isinstance(st.body[0], ast.Assign) and isinstance(st.body[0].value, ast.Call) and isinstance(st.body[0].value.func, ast.Attribute) \
-                and st.body[0].value.func.attr == "replace":
-            tz = get_kw(st.body[0].value, "tzinfo")
-            try:
-                tzv = prog.fold(ftm, tz) if tz is not None else None
-            except NotConst:
-                tzv = None
-            if isinstance(tzv, Ref) and tzv.name == "datetime.timezone.utc":
-                norm_if = st
-    if norm_if is None:
+    def _is_utc(e):
+        try:
+            v = prog.fold(ftm, e) if e is not None else None
+        except NotConst:
+            return False
+        return isinstance(v, Ref) and v.name == "datetime.timezone.utc"
+
+    def _aware_value(e):
+        """<x>.replace(tzinfo=UTC): aware whatever <x> was."""
+        return isinstance(e, ast.Call) and isinstance(e.func, ast.Attribute) and e.func.attr == "replace" and _is_utc(get_kw(e, "tzinfo"))
+
+    def _aware_ctor(e):
+        """fromtimestamp(x, UTC) / now(UTC): aware by construction."""
+        return isinstance(e, ast.Call) and isinstance(e.func, ast.Attribute) and e.func.attr in ("fromtimestamp", "now") and (
+            _is_utc(get_kw(e, "tz")) or (e.func.attr == "fromtimestamp" and len(e.args) >= 2 and _is_utc(e.args[1])) or (e.func.attr == "now" and len(e.args) >= 1 and _is_utc(e.args[0])))
+
+    n_norm = sum(1 for c in calls_in(dn) if _aware_value(c))
+    if n_norm == 0:
         ctx.fail(rule, "datetime.__new__:normalisation", "no `if obj.tzinfo is None: obj = obj.replace(tzinfo=UTC)` statement", dn,
                  key=rule + ":datetime.__new__:no-normalisation")
-    else:
-        var = norm(norm_if.test.left.value)
-        tnode = dcfg.node_of(norm_if)
-        fix_node = dcfg.node_of(norm_if.body[0])
-        for rn in rets:
-            returns_var = rn.ast.value is not None and norm(rn.ast.value) == var
-            dom = dcfg.dominates(tnode.id, rn.id)
-            later_defs = [n for n in dcfg.stmt_nodes() if var in stored_paths(n) and n.id != fix_node.id and n.id in dcfg.reachable(tnode.id)
-                          and rn.id in dcfg.reachable(n.id)]
-            ctx.check(returns_var and dom and not later_defs, rule, "datetime.__new__:return",
-                      ("returns a value other than the normalised object" if not returns_var else
-                       "a path returns without passing the naive->UTC normalisation" if not dom else
-                       "the object is re-assigned after the normalisation" + (f" ({norm(later_defs[0].ast)})" if later_defs else "")), rn.ast,
-                      "dominated by the naive->UTC normalisation", key=rule + ":datetime.__new__:return-not-normalised")
+    for rn in rets:
+        v = rn.ast.value
+        if v is None:
+            ctx.fail(rule, "datetime.__new__:return", "returns None", rn.ast, key=rule + ":datetime.__new__:return-not-normalised")
+            continue
+        if _aware_value(v):
+            # must only replace a NAIVE value's tzinfo (an aware one would be shifted): the fact `<x>.tzinfo is None` holds
+            recv = norm(v.func.value)
+            prem = _lgc.facts_as_premises(dcfg.facts_at(rn.id))
+            ctx.check(_lgc.implies(prem, _lgc.parse(f"{recv}.tzinfo is None")), rule, "datetime.__new__:return", f"`{norm(v)}` overrides the time zone of a value that may be aware", rn.ast,
+                      "tzinfo is only filled in for a naive value", key=rule + ":datetime.__new__:return-not-normalised")
+            continue
+        if _aware_ctor(v):
+            ctx.ok(rule, "datetime.__new__:return", f"`{norm(v)[:50]}` is aware by construction", rn.ast)
+            continue
+        if not isinstance(v, ast.Name):
+            ctx.fail(rule, "datetime.__new__:return", f"returns `{norm(v)}`, a value other than the normalised object", rn.ast, key=rule + ":datetime.__new__:return-not-normalised")
+            continue
+        var = v.id
 
+        def _edge(fs, var=var):
+            return any((t == f"{var}.tzinfo is not None" and p) or (t == f"{var}.tzinfo is None" and not p) or (t == f"{var}.tzinfo" and p) for t, p, _ in fs)
 
+        def _node(nd, var=var):
+            st_ = nd.ast
+            if nd.kind == "stmt" and isinstance(st_, (ast.Assign, ast.AugAssign, ast.AnnAssign)):
+                tg = st_.targets if isinstance(st_, ast.Assign) else [st_.target]
+                if any(isinstance(x, ast.Name) and x.id == var and isinstance(x.ctx, ast.Store) for t_ in tg for x in ast.walk(t_)):
+                    val = getattr(st_, "value", None)
+                    if isinstance(st_, ast.Assign) and _aware_ctor(val):
+                        return True
+                    if isinstance(st_, ast.Assign) and _aware_value(val):
+                        # replacing the zone is only right for a naive value
+                        prem = _lgc.facts_as_premises(dcfg.facts_at(nd.id))
+                        return _lgc.implies(prem, _lgc.parse(f"{norm(val.func.value)}.tzinfo is None"))
+                    return False
+            return None
+
+        aware = dcfg.must_hold(rn.id, _edge, _node)
+        ctx.check(aware, rule, "datetime.__new__:return", f"a path returns `{var}` without it having passed the naive->UTC normalisation (tzinfo tested / filled in), or it is "
+                  "re-assigned afterwards", rn.ast, "every returned value is known to be aware", key=rule + ":datetime.__new__:return-not-normalised")
 
     # local-time sensitive operations: on a naive value they read the process time zone, so "naive means UTC" would depend on TZ
-    from .. import logic as _lg
+    _lg = _lgc
 
     n_sites = 0
     for c in calls_in(dn):
